@@ -60,13 +60,14 @@ type Run struct {
 	Deadline time.Time
 	Res      Result
 
-	distinct map[uint64]struct{}
-	cmd      *exec.Cmd
-	in       *bufio.Writer
-	inRaw    io.WriteCloser
-	out      *bufio.Reader
-	start    time.Time
-	maxIssue int
+	distinct  map[uint64]struct{}
+	cmd       *exec.Cmd
+	in        *bufio.Writer
+	inRaw     io.WriteCloser
+	out       *bufio.Reader
+	start     time.Time
+	maxIssue  int
+	nDisagree int
 }
 
 func NewRun(area string, seed int64, tier, outDir string, modelCmd []string, budget time.Duration) *Run {
@@ -209,6 +210,13 @@ func (r *Run) addIssue(is Issue) {
 
 // Disagree records model ≠ implementation on the given op sequence.
 func (r *Run) Disagree(property, stream, desc string, ops []string, model, impl string) {
+	// disagreements never crowd out violations: at most 8 are recorded (the rest only counted), so
+	// the shared issue cap always leaves room for the failing inputs the oracle finds later
+	r.nDisagree++
+	if r.nDisagree > 8 {
+		r.Res.Counters["disagreements_not_recorded"]++
+		return
+	}
 	r.addIssue(Issue{Kind: "disagreement", Property: property, Stream: stream, Desc: desc, Ops: ops, Model: model, Impl: impl})
 }
 
